@@ -447,6 +447,7 @@ func runC16(c *Ctx) {
 			c.Ev.Count("tc_then_same_question_over_tcp", 1)
 		}
 		c.Ev.Distinct(ex.Form, ex.UDP, ex.TCP, ex.QType, ex.QClass, ex.ErrClass, len(lg.tcpQ[ex.Name]))
+		c.Ev.Sample(map[string]any{"address_form": ex.Form, "udp_leg": ex.UDP, "tcp_leg": ex.TCP, "qname": ex.Name, "qtype": ex.QType, "returned_message": ex.Returned, "returned_leg": ex.Leg, "error_class": ex.ErrClass, "tcp_queries_seen": len(lg.tcpQ[ex.Name])})
 		sig, what, isSoft := c16Judge(ex, lg)
 		if sig == "" {
 			continue
